@@ -22,7 +22,7 @@ ASSUMPTIONS = ["with a repeated heading text only conservation of the ACE multis
                "(C15's wording); remarks may merge", "TCAM formula as stated in C15"]
 REQUIRED = ["grouped_2plus_blocks", "text_unchanged_by_group_ungroup", "permutation_moved_block",
             "sort_restored", "tcam_with_group_members", "heading_only_block", "no_leading_heading",
-            "mixed_list_regrouped", "marker_blocks", "indent_blocks"]
+            "mixed_list_regrouped", "marker_blocks", "indent_blocks", "refused_group_left_acl_unchanged"]
 PREFIXES = ["= ", "=", "x", ""]
 
 
@@ -70,6 +70,7 @@ def units(tier, seed):
         out.append(dict(kind="markers", marker=mi))
     for ii in range(len(INDENTS)):
         out.append(dict(kind="indents", indent=ii))
+    out.append(dict(kind="refused"))
     for a in range(n):
         for b in range(n):
             out.append(dict(first=[a, b]))
@@ -85,6 +86,9 @@ def run_unit(unit, ctx):
             for idx in product(MARK_SUB, repeat=ln):
                 for p in (marker, marker.rstrip()) if marker.rstrip() != marker else (marker,):
                     script(idx, p, ctx, "ios" if sum(idx) % 2 else "nxos", marker=unit["marker"])
+        return
+    if unit.get("kind") == "refused":
+        _refused(ctx)
         return
     if unit.get("kind") == "indents":
         # the indentation setting is part of the text that grouping must leave unchanged
@@ -107,7 +111,49 @@ def run_unit(unit, ctx):
     ctx.sample("acl", dict(idx=list(first + rest)))
 
 
+def _refused(ctx):
+    """group() refuses a heading longer than a block name may be (ValueError): a refused call leaves
+    the ACL exactly as it was - text, blocks, prefix - whether it was flat or grouped before."""
+    from cisco_acl import Acl
+
+    long_head = "= " + "x" * 101
+    lines = ["remark = a", "permit tcp any any eq 80", "remark " + long_head, "deny ip any any",
+             "remark = b", "permit icmp any any", "remark =c", "permit udp any any"]
+    from itertools import permutations as _perm
+
+    for plat in ("ios", "nxos"):
+        for n in (2, 3, 4):
+            for idx in _perm(range(len(lines)), n):
+                if 2 not in idx:
+                    continue
+                for pre in ("", "=", "x"):
+                    ctx.ev()
+                    case = dict(kind="refused", platform=plat, lines=[lines[i] for i in idx], pregrouped=pre)
+                    acl = Acl(PR.header(plat) + "\n" + "\n".join(" " + lines[i] for i in idx), platform=plat)
+                    try:
+                        if pre:
+                            acl.group(pre)
+                        before = (acl.line, PR.blocks(acl), acl.group_by, acl.tcam_count())
+                        acl.group("= ")
+                        ctx.out("long_heading_accepted")
+                        continue
+                    except ValueError:
+                        pass
+                    except Exception as ex:  # noqa
+                        ctx.viol("Acl.group:undocumented_exception", case, repr(ex), "ValueError or success")
+                        continue
+                    after = (acl.line, PR.blocks(acl), acl.group_by, acl.tcam_count())
+                    if after != before:
+                        ctx.viol("Acl.group:refused_call_modified_the_acl", case, after, before)
+                    else:
+                        ctx.out("refused_group_left_acl_unchanged")
+    ctx.sample("refused", dict(heading_length=len(long_head)))
+
+
 def replay(case, ctx):
+    if case.get("kind") == "refused":
+        _refused(ctx)
+        return
     script(tuple(case["idx"]), case["prefix"], ctx, case.get("platform", "ios"),
            marker=case.get("marker"), indent=case.get("indent"))
 
